@@ -9,7 +9,7 @@
 From Coq Require Import List NArith ZArith Bool.
 From V.Lib Require Import Base Hex.
 From V.Gen Require Import C03Tables.
-From V.C03 Require Import Codec.
+From V.C03 Require Import Codec Sha256.
 Import ListNotations.
 Local Open Scope N_scope.
 
@@ -261,6 +261,20 @@ Definition tx_write (valid : N -> bytes -> bool) (t : tx_t) : bytes := enc (c_tx
 Definition header_read (b : bytes) : outcome (header_t * bytes) unit :=
   match dec c_header b with Some x => Ok x | None => Err tt end.
 Definition header_write (h : header_t) : bytes := enc c_header h.
+
+(** * Context and identifiers
+    [Transaction::read(reader, ctx)] stores the caller's branch id in a v1–v4 transaction (it is
+    not on the wire) and the encoded one in v5/v6.  The v1–v4 txid is SHA-256d of the encoding
+    (the v5+ txid is the subject of C04); the block hash is SHA-256d of the header encoding. *)
+Definition is_legacy (v : txv) : bool := match v with V5 | V6 => false | _ => true end.
+Definition effective_branch (ctx : N) (t : tx_t) : N :=
+  match snd t with
+  | inl _ => ctx
+  | inr (inl x) => fst (fst x)
+  | inr (inr x) => fst (fst x)
+  end.
+Definition legacy_txid (valid : N -> bytes -> bool) (t : tx_t) : bytes := sha256d (tx_write valid t).
+Definition header_hash (h : header_t) : bytes := sha256d (header_write h).
 
 (** * Amount fields of a decoded transaction (for [amount_fields_in_range]) *)
 Definition txout_values (tp : ty c_transparent) : list N := map fst (snd tp).
